@@ -8,7 +8,9 @@ EXTENDS XzDiffContract, TLC, Json
 VARIABLES g, cnt, cat, dd, meta
 gvars == <<g, cnt, cat, dd, meta>>
 
-OptWords == {"-q", "-s", "-a", "--text", "-U1", "--brief", "-u", "-b"}
+\* option words that do not change the verdict (cmp does not know diff's options)
+OptWords == IF prog = "xzcmp" THEN {"-s", "-b", "--silent", "--print-bytes"}
+            ELSE {"-q", "-s", "-a", "--text", "-U1", "--brief", "-u", "-b"}
 SpecialWords == {"--help", "--version", "--he", "--vers"}
 NameClasses == {"plain", "nl", "sq", "dq", "semi", "bs", "amp", "pipe", "subst", "btick", "glob", "colon", "space",
                 "sqsubst", "sedmix", "bsend", "dash", "dashopt", "dashsubst"}
@@ -82,5 +84,6 @@ Emit == (pc # "done" /\ pc' = "done") =>
           PrintT(<<"PLAN", ToJson([tool |-> "diff", prog |-> prog, argv |-> argv, meta |-> meta, stem |-> stem, sin |-> sin,
                                    outcome |-> outcome', exit |-> exit', views |-> views, xst |-> xst, cmpst |-> cmpst,
                                    copts |-> copts, ops |-> args, stemname |-> stemname,
+                                   want |-> IF outcome' = "ran" THEN WantExits' ELSE {exit'},
                                    div |-> Divergences'])>>)
 =============================================================================
